@@ -87,24 +87,36 @@ func solveObligation(o *Obligation, dir string, timeoutS int, all bool) {
 		return
 	}
 	file := o.Query
-	ctx, cancel := context.WithCancel(context.Background())
-	defer cancel()
-	ch := make(chan solveResult, len(solvers))
-	for _, s := range solvers {
-		go func(s solverSpec) { ch <- runSolver(ctx, s, file, timeoutS) }(s)
-	}
 	var results []solveResult
 	var winner *solveResult
-	for range solvers {
-		r := <-ch
-		results = append(results, r)
-		if (r.verdict == "sat" || r.verdict == "unsat") && winner == nil {
-			rr := r
-			winner = &rr
-			if !all {
-				cancel()
+	race := func(file string, tag string, onlyUnsat bool) {
+		ctx, cancel := context.WithCancel(context.Background())
+		defer cancel()
+		ch := make(chan solveResult, len(solvers))
+		for _, s := range solvers {
+			go func(s solverSpec) { ch <- runSolver(ctx, s, file, timeoutS) }(s)
+		}
+		for range solvers {
+			r := <-ch
+			r.solver += tag
+			results = append(results, r)
+			ok := r.verdict == "unsat" || (r.verdict == "sat" && !onlyUnsat)
+			if ok && winner == nil {
+				rr := r
+				winner = &rr
+				if !all {
+					cancel()
+				}
 			}
 		}
+	}
+	// 1. cone-of-influence slice: only an unsat answer is conclusive there (fewer hypotheses)
+	if o.Sliced != "" && !o.Cover {
+		race(o.Sliced, "/sliced", true)
+	}
+	// 2. the full query
+	if winner == nil {
+		race(file, "", false)
 	}
 	if all {
 		seen := map[string]bool{}
@@ -215,6 +227,13 @@ func prepare(o *Obligation, dir string) {
 	}
 	os.WriteFile(file, []byte("; obligation "+o.ID+"\n; "+strings.ReplaceAll(o.Text, "\n", " ")+"\n"+q), 0o644)
 	o.Query = file
+	// sliced variant (cone of influence of the goal)
+	sl := sliceHyps(hyps, o.Goal)
+	if len(sl) < len(hyps) {
+		q1, _ := emitQuery(sl, o.Goal, true)
+		o.Sliced = filepath.Join(dir, sanitizeFile(o.ID)+".sliced.smt2")
+		os.WriteFile(o.Sliced, []byte(fmt.Sprintf("; SLICED (%d of %d hypotheses) %s\n", len(sl), len(hyps), o.ID)+q1), 0o644)
+	}
 	// relaxed variant (no quantified hypotheses): used only when the full query is undecided
 	q2, _ := emitQueryOpt(hyps, o.Goal, true, true)
 	o.Relaxed = filepath.Join(dir, sanitizeFile(o.ID)+".relaxed.smt2")
